@@ -44,7 +44,7 @@ def AlgWf (a : JwsAlgRow) : Prop :=
   (a.cls = "ECAlgModel" ∧ a.keyType = "EC") ∨ (a.cls = "EdDSAAlgModel" ∧ a.keyType = "OKP")
 
 structure RegWf (r : JwsRegistry) : Prop where
-  algStr : ∃ p ∈ r.headerRegistry, p.name = "alg" ∧ p.validator = .str
+  algStr : ∃ p ∈ r.headerRegistry, p.name = "alg" ∧ p.validator = .str ∧ p.required = true
   rows : ∀ a ∈ r.algorithms, AlgWf a
 
 theorem c16_tables : ∀ a ∈ Generated.jwsAlgorithms,
@@ -348,7 +348,7 @@ theorem c16_jws_compact (P : Prims) (hP : PrimErrs P) (E : Env) (hops : (E.ops.f
     apply Doc.bind (pyGetItemStr_obj_doc h "alg" hin)
     intro algv hav
     -- after check_header the `alg` value is a string
-    obtain ⟨p, hp, hname, hval⟩ := hreg.algStr
+    obtain ⟨p, hp, hname, hval, _⟩ := hreg.algStr
     have hok := (C15.c15_jws_check_iff reg h).1 hch
     simp only [pyGetItemStr, ofOpt_ok_iff] at hav
     have hty := hok.typed p hp algv (by rw [hname]; exact hav)
@@ -390,7 +390,7 @@ theorem c16_jwt_decode_jws (P : Prims) (hP : PrimErrs P) (E : Env) (hops : (E.op
 /-- The default registries are well formed (regenerated tables). -/
 theorem c16_default_registry_wf (allowed : Option (List String)) : RegWf (Generated.mkJwsRegistry allowed) := by
   constructor
-  · refine ⟨{ name := "alg", validator := .str, required := true }, ?_, rfl, rfl⟩
+  · refine ⟨{ name := "alg", validator := .str, required := true }, ?_, rfl, rfl, rfl⟩
     simp only [Generated.mkJwsRegistry, HeaderRegistry.update, List.foldl_nil]
     decide
   · intro a ha; exact c16_tables a ha
